@@ -11,6 +11,20 @@ COMMON_NOTE = ('Trusted: assumed contracts for bytes/futures channels/write_all/
                '(handlers run one at a time to completion); Verus/Z3/rustc. Interleavings are reduced to sequences of handler calls by that assumption.')
 
 CLAIMS = {
+    'C01': ('proof', 'Verus discharges, on the real ByteLen/Encode/SizedPacket/PacketID impls of every outbound packet (CONNECT, AUTH, PUBLISH, SUBSCRIBE, UNSUBSCRIBE, DISCONNECT, PINGREQ, PUBACK/PUBREC/PUBREL/PUBCOMP) and of every primitive and property '
+            'they are built from, extracted from the working tree, for ALL field values with no bound: the bytes appended to the buffer are exactly the image of the struct under a layout function written from the MQTT 5 standard '
+            '(field order, flag bit positions, property identifiers, absent optionals omitted), the remaining-length and property-length fields equal the size of what follows, packet_len() equals the number of bytes written and nothing before the packet is touched; '
+            'the derive_builder validate functions refuse exactly the requests that lack a mandatory part. In unit handle/context: each request becomes one message, written by one write() call as a whole packet, in submission order. '
+            'NOT under contract: the option setters of client/opts.rs (caller option -> Tx struct field); the replay suite c01_wire samples them natively (bounded, not counted as proved).', '5 C01'),
+    'C02': ('proof', 'Verus discharges, on the real TryDecode impls of all eleven inbound packet types, of RxPacket::try_decode (dispatcher) and of every primitive/property decoder, extracted from the working tree, for ALL byte strings with no bound, '
+            'two contracts written from the standard: soundness (an accepted packet has exactly the field values the bytes denote: fixed-header bits, identifiers, reason codes, every property by identifier, repeated user properties and '
+            'subscription identifiers all kept in order, absent properties read as the standard defaults) and acceptance (every well-formed packet, incl. the shortened PUBACK-family/AUTH/DISCONNECT forms, any legal property set in any order, MUST decode Ok), '
+            'with concrete well-formed example packets proved to satisfy the acceptance precondition (non-vacuity). '
+            'NOT under contract: the accessor functions of client/rsp.rs and client/error.rs (struct field -> public getter); the replay suite c02_decode samples them natively (bounded, not counted as proved).', '5 C02'),
+    'C04': ('proof', 'Panic-freedom half: every implicit obligation Verus generates (index in range, unwrap/expect on Some/Ok, slice/split_to/advance within the buffer, arithmetic overflow with overflow checks ON, unreachable!/assert! reachability, callee preconditions) '
+            'on every function extracted in every unit (decoders for arbitrary bytes, framing layer for arbitrary chunkings, context handlers for arbitrary packets in any session state, connect/authorize/run arms for any first inbound item) is discharged, no bound. '
+            'No-stall half: only the per-call statement of C03 (a complete buffered frame is returned, never Pending); termination/liveness of the run loop is not proved. '
+            'Exempt: the documented assertion on subscription-identifier support (its expect is dropped by a stated substitution).', '5 C04'),
     'C03': ('proof', 'Verus discharges, on RxPacketStream::poll_next extracted from the working tree (with the stated rewrites W12/W14/W15/W16), for ALL buffer states and chunkings, no bound: '
             'a representation invariant (the unread bytes are the most recently delivered ones, a known packet length is the frame length of their head) is preserved; a returned packet is the decoding of exactly '
             'the next frame of the delivered byte stream and the rest stays buffered; Pending is returned only if the reader itself answered Pending in this call, with no complete packet buffered; '
